@@ -186,6 +186,7 @@ func RunC01(tier, replay string) int {
 	r.Assume = []string{"documented exclusions are kept out of the alphabet: expand x polymorphism, base types in tuples/maps, additionalItems without --skip-validation", "for hostile names a refusal (non-zero exit) is an accepted outcome; it is counted"}
 	s := NewScratch("C01")
 	defer s.Close()
+	installCustomPkg(s) // the external types of the x-go-type family
 
 	var cases []c01Case
 	var modelSingles []c01Case
@@ -202,6 +203,9 @@ func RunC01(tier, replay string) int {
 	} else {
 		// ---- (1) model universe: reuse the packed pipeline; dropped definitions are C01 violations
 		defs, _ := EnumerateDefs(k, depth, "D")
+		if os.Getenv("VERIF_C01_ONLY") != "" {
+			defs = nil
+		}
 		for _, sp := range SpecialDefs() { // tuples, polymorphism, odd property names, allOf of maps
 			defs = append(defs, sp.Def)
 		}
@@ -318,6 +322,37 @@ func RunC01(tier, replay string) int {
 				cases = append(cases, c01Case{Name: "security " + sv.name, Class: "security:" + sv.name, Doc: d, Target: t, Strict: true})
 			}
 		}
+		// ---- (6) pre-processing modes over the operation universe (the model universe: below, thorough)
+		{
+			gen1, _ := xplore.Collect(xplore.Options{MaxDeviations: 1}, genParamOp)
+			modeOps := gen1
+			if tier == "thorough" {
+				modeOps = gen
+			}
+			modeOps = append(append([]OpCase{}, modeOps...), c03SpecialOps()...)
+			modeOps = append(modeOps, c01ResponseOps()...)
+			for i := range modeOps {
+				modeOps[i].ID = fmt.Sprintf("f%04d", i)
+			}
+			modeTargets := []string{"server"}
+			if tier == "thorough" {
+				modeTargets = []string{"server", "client"}
+			}
+			for _, mode := range [][]string{{"--with-flatten=full"}, {"--with-expand"}} {
+				for lo := 0; lo < len(modeOps); lo += per {
+					hi := lo + per
+					if hi > len(modeOps) {
+						hi = len(modeOps)
+					}
+					doc := packOpsFull(modeOps[lo:hi])
+					for _, t := range modeTargets {
+						cases = append(cases, c01Case{Name: fmt.Sprintf("ops %s..%s %s", modeOps[lo].ID, modeOps[hi-1].ID, mode[0]), Class: "operations " + mode[0], Doc: doc, Target: t, Args: mode, Strict: true, Ops: modeOps[lo:hi]})
+					}
+				}
+			}
+		}
+		// ---- (7) documented vendor extensions (x-go-type family and the struct-tag / ordering / nullability extensions)
+		cases = append(cases, c01ExtCases(tier)...)
 		if tier == "thorough" {
 			// pairs of switches on the server target
 			for i := range switches {
@@ -333,6 +368,16 @@ func RunC01(tier, replay string) int {
 			}
 		}
 	}
+	if only := os.Getenv("VERIF_C01_ONLY"); only != "" && replay == "" { // development aid: one case class only
+		var keep []c01Case
+		for _, c := range cases {
+			if strings.Contains(c.Class, only) {
+				keep = append(keep, c)
+			}
+		}
+		cases, modelSingles = keep, nil
+		r.Prop = "C01dev"
+	}
 	r.Extra["generate_and_build_cases"] = len(cases)
 	r.Extra["bound_completed"] = fmt.Sprintf("G: k<=%d, depth<=%d; operations: <=%d deviating dimensions; names: %d; switches one at a time (pairs in thorough)", k, depth, opBound, len(c01Names(tier)))
 	type result struct{ genErr, buildErr, flaky string }
@@ -347,7 +392,11 @@ func RunC01(tier, replay string) int {
 		res := results[i]
 		if (res.genErr != "" || res.buildErr != "") && len(c.Ops) > 1 {
 			for _, op := range c.Ops {
-				singles = append(singles, c01Case{Name: "op {" + op.Desc + "}", Class: op.Class, Doc: packOpsFull([]OpCase{op}), Target: c.Target, Strict: true})
+				cl := op.Class
+				if len(c.Args) > 0 {
+					cl = strings.Join(c.Args, " ") + " | " + op.Class
+				}
+				singles = append(singles, c01Case{Name: "op {" + op.Desc + "}", Class: cl, Doc: packOpsFull([]OpCase{op}), Target: c.Target, Args: c.Args, Strict: true})
 			}
 		}
 	}
@@ -484,6 +533,11 @@ func sigClass(class string) string {
 		return class
 	}
 	// operation classes are "loc | type | container | flags | val": keep loc, type-class and container
+	if strings.HasPrefix(class, "--") { // pre-processing mode prefix
+		if i := strings.Index(class, " | "); i > 0 {
+			return class[:i] + "," + sigClass(class[i+3:])
+		}
+	}
 	parts := strings.Split(class, " | ")
 	if len(parts) >= 3 {
 		return strings.Join(parts[:3], ",")
